@@ -96,13 +96,17 @@ class ExactAlgorithmPulp(RankAggAlgorithm, PairwiseBasedAlgorithm):
                 bucket = {id_elements[elem]}
                 current_nb_def = nb_defeats
         ranking.append(bucket)
+        attributes = {ConsensusFeature.NECESSARILY_OPTIMAL: True,
+                      ConsensusFeature.ASSOCIATED_ALGORITHM: self.get_full_name()}
+        # the solver gives no objective value when the objective function has no term (one element, or all the
+        # costs are 0): the score is then left to be computed on demand by the Consensus object
+        objective_value = prob.objective.value()
+        if objective_value is not None:
+            attributes[ConsensusFeature.KEMENY_SCORE] = objective_value
         return Consensus(consensus_rankings=[Ranking(ranking)],
                          dataset=dataset,
                          scoring_scheme=scoring_scheme,
-                         att={ConsensusFeature.NECESSARILY_OPTIMAL: True,
-                              ConsensusFeature.ASSOCIATED_ALGORITHM: self.get_full_name(),
-                              ConsensusFeature.KEMENY_SCORE: prob.objective.value(),
-                              })
+                         att=attributes)
 
     @staticmethod
     def _add_pulp_variables(nb_elem: int, my_values: List[float],
